@@ -901,6 +901,11 @@ Fixpoint ctx_invalidate (insts : list Z) (ids : list Z) (lost : list Z) (failed 
         let targets := map (fun x => (fst (fst x), snd (fst x)))
                            (filter (fun x => sp_running_on (snd x) i) (all_procs s)) in
         do failed' <- inval_procs i targets failed ;;
+        (* then every process known on the instance (status.processes): those STOPPING there are invalidated
+           too, without entering failed_processes *)
+        let others := map (fun x => (fst (fst x), snd (fst x)))
+                          (filter (fun x => amem i (p_infos (sp_st (snd x)))) (all_procs s)) in
+        do _ <- inval_procs i others [] ;;
         ctx_invalidate r ids (lost ++ [i]) failed'
       else ctx_invalidate r ids lost failed
   end.
@@ -1056,3 +1061,340 @@ Definition case_mismatch (c : case) : bool :=
   negb (list_eqb obs_eqb (run default_fuel (init_st cf) ops) observed).
 
 Definition mismatches (cs : list case) : list nat := find_idx case_mismatch cs.
+
+(* ====================================================================================================
+   Abstract specifications Spec_C03 / Spec_C09 / Spec_C10, written from the property statements, as CHECKERS
+   of an observed trace (operations in, requests out).  They use no part of the Starter/Stopper model above:
+   only the rules (config), the operations, and the observed outputs.
+
+   Bookkeeping: a request is OUTSTANDING from its emission until it is done or given up, as the properties list:
+   the targeted instance reported RUNNING (or EXITED-expected when wait_exit), a failing state, a forced state
+   was published for it (timeout / no resource), its instance was invalidated, or the sequencer was aborted.
+   Requests made for a single process by the user (start_process / stop_process / restart_process) are
+   'manual': they are outside the application sequencing the properties speak about (sticky mark per process).
+   ==================================================================================================== *)
+Inductive vio :=
+| V_start_order        (* C03: a process of the same application with another (lower) sequence is not done *)
+| V_app_order          (* C03: an application with another (lower) positive sequence is not done *)
+| V_zero               (* C03: start_sequence 0 requested automatically *)
+| V_strategy           (* C03: request for an application after a required ABORT/STOP failure *)
+| V_strategy_timeout   (* C03: same, the failure being a timeout (reported apart) *)
+| V_stop_order         (* C09: stop request while another stop_sequence of the application is in flight *)
+| V_stop_app_order     (* C09: same at application level *)
+| V_together           (* C09: a stop_sequence group emitted over several steps *)
+| V_where_running      (* C09: stop sent where the process is not running *)
+| V_bound              (* C10: request still in progress after the tick bound and a periodic check *)
+| V_progress.          (* C10: in_progress() reported although no request is in flight, or the converse *)
+
+Definition vio_code (v : vio) : Z :=
+  match v with
+  | V_start_order => 1 | V_app_order => 2 | V_zero => 3 | V_strategy => 4 | V_strategy_timeout => 5
+  | V_stop_order => 6 | V_stop_app_order => 7 | V_together => 8 | V_where_running => 9
+  | V_bound => 10 | V_progress => 11
+  end.
+
+Record oreq := mkOReq {
+  o_kind : kind; o_a : Z; o_p : Z; o_i : Z; o_manual : bool;
+  o_op : Z;      (* index of the operation that emitted it *)
+  o_ref : Z;     (* tick counter of the target when requested (reset by BACKOFF) *)
+  o_lost : bool }. (* its host was lost (given up for the ordering statements; C10 still follows it until the
+                      sequencer drops it) *)
+
+Record sspec := mkSSpec {
+  ss_insts : alist sinst;
+  ss_last : list (Z * Z * Z * pstate);   (* last accepted report of (a, p, i) *)
+  ss_reqs : list oreq;
+  ss_manual_start : list (Z * Z);
+  ss_manual_stop : list (Z * Z);
+  ss_user_apps : list Z;                 (* applications the user asked to start *)
+  ss_plans : alist Z;                    (* app -> number of start plans requested so far *)
+  ss_aborts : alist Z;                   (* app -> number of aborted runs so far *)
+  ss_flag : list Z;                      (* apps whose current run is aborted (FAILED / no resource / lost) *)
+  ss_flag_to : list Z;                   (* ... by a timeout *)
+  ss_lostids : list Z;
+  ss_noresource : bool;                  (* a 'No resource available' failure occurred (class of F-A) *)
+  ss_vios : list vio }.
+
+Definition pair_mem (a p : Z) (l : list (Z * Z)) : bool := existsb (fun x => Z.eqb (fst x) a && Z.eqb (snd x) p) l.
+
+Definition cf_app (cf : config) (a : Z) : option aconf := find (fun ac => Z.eqb (ac_name ac) a) (cf_apps cf).
+Definition cf_proc (cf : config) (a p : Z) : option pconf :=
+  match cf_app cf a with Some ac => find (fun pc => Z.eqb (pc_name pc) p) (ac_procs ac) | None => None end.
+Definition cf_rules (cf : config) (a p : Z) : prules :=
+  match cf_proc cf a p with Some pc => pc_rules pc | None => mkPRules 0 0 false false 0 end.
+Definition cf_app_start (cf : config) (a : Z) : Z := match cf_app cf a with Some ac => ac_start ac | None => 0 end.
+Definition cf_app_stop (cf : config) (a : Z) : Z := match cf_app cf a with Some ac => ac_stop ac | None => 0 end.
+
+Definition last_state (ss : sspec) (a p i : Z) : pstate :=
+  match find (fun x => let '(a', p', i', _) := x in Z.eqb a a' && Z.eqb p p' && Z.eqb i i') (ss_last ss) with
+  | Some (_, _, _, s) => s
+  | None => STOPPED
+  end.
+Definition set_last (l : list (Z * Z * Z * pstate)) (a p i : Z) (s : pstate) : list (Z * Z * Z * pstate) :=
+  (a, p, i, s) :: filter (fun x => let '(a', p', i', _) := x in negb (Z.eqb a a' && Z.eqb p p' && Z.eqb i i')) l.
+
+Definition ss_with (ss : sspec) (insts : alist sinst) (last : list (Z * Z * Z * pstate)) (reqs : list oreq) : sspec :=
+  mkSSpec insts last reqs (ss_manual_start ss) (ss_manual_stop ss) (ss_user_apps ss) (ss_plans ss) (ss_aborts ss)
+          (ss_flag ss) (ss_flag_to ss) (ss_lostids ss) (ss_noresource ss) (ss_vios ss).
+Definition ss_marks (ss : sspec) (ms mp : list (Z * Z)) (ua : list Z) (plans : alist Z) : sspec :=
+  mkSSpec (ss_insts ss) (ss_last ss) (ss_reqs ss) ms mp ua plans (ss_aborts ss)
+          (ss_flag ss) (ss_flag_to ss) (ss_lostids ss) (ss_noresource ss) (ss_vios ss).
+Definition ss_flags (ss : sspec) (aborts : alist Z) (flag flag_to : list Z) (nores : bool) : sspec :=
+  mkSSpec (ss_insts ss) (ss_last ss) (ss_reqs ss) (ss_manual_start ss) (ss_manual_stop ss) (ss_user_apps ss)
+          (ss_plans ss) aborts flag flag_to (ss_lostids ss) nores (ss_vios ss).
+Definition ss_lost_set (ss : sspec) (l : list Z) : sspec :=
+  mkSSpec (ss_insts ss) (ss_last ss) (ss_reqs ss) (ss_manual_start ss) (ss_manual_stop ss) (ss_user_apps ss)
+          (ss_plans ss) (ss_aborts ss) (ss_flag ss) (ss_flag_to ss) l (ss_noresource ss) (ss_vios ss).
+Definition ss_add_vio (ss : sspec) (v : vio) : sspec :=
+  mkSSpec (ss_insts ss) (ss_last ss) (ss_reqs ss) (ss_manual_start ss) (ss_manual_stop ss) (ss_user_apps ss)
+          (ss_plans ss) (ss_aborts ss) (ss_flag ss) (ss_flag_to ss) (ss_lostids ss) (ss_noresource ss)
+          (v :: ss_vios ss).
+Definition ss_check (ss : sspec) (ok : bool) (v : vio) : sspec := if ok then ss else ss_add_vio ss v.
+
+Definition aget0 (k : Z) (l : alist Z) : Z := match aget k l with Some x => x | None => 0 end.
+
+(* a required process of application a failed to start: the run is aborted for ABORT / STOP *)
+Definition spec_failure (cf : config) (ss : sspec) (a p : Z) (timeout : bool) : sspec :=
+  let r := cf_rules cf a p in
+  if pr_required r && (Z.eqb (pr_sfs r) gen_StartingFailureStrategies_ABORT
+                       || Z.eqb (pr_sfs r) gen_StartingFailureStrategies_STOP) then
+    if timeout then ss_flags ss (ss_aborts ss) (ss_flag ss) (zadd a (ss_flag_to ss)) (ss_noresource ss)
+    else if zmem a (ss_flag ss) then ss
+    else ss_flags ss (aset a (aget0 a (ss_aborts ss) + 1) (ss_aborts ss)) (zadd a (ss_flag ss)) (ss_flag_to ss)
+                  (ss_noresource ss)
+  else ss.
+
+(* does this reported state complete (Some false) / fail (Some true) a start request, or leave it pending *)
+Definition start_done (r : prules) (manual : bool) (s : pstate) (expected : bool) : option bool :=
+  match s with
+  | STARTING | BACKOFF => None
+  | RUNNING => if pr_wait_exit r && negb manual then None else Some false
+  | EXITED => if pr_wait_exit r && expected then Some false else Some true
+  | _ => Some true
+  end.
+
+Definition spec_event (cf : config) (ss : sspec) (i a p : Z) (s : pstate) (expected : bool) : sspec :=
+  let accepted := match aget i (ss_insts ss), cf_proc cf a p with
+                  | Some ins, Some pc => inst_accepts ins && zmem i (pc_insts pc)
+                  | _, _ => false end in
+  if negb accepted then ss else
+  let cnt := match aget i (ss_insts ss) with Some ins => in_counter ins | None => 0 end in
+  let mine (o : oreq) := Z.eqb (o_a o) a && Z.eqb (o_p o) p && Z.eqb (o_i o) i in
+  let r := cf_rules cf a p in
+  let failed := existsb (fun o => mine o && kind_eqb (o_kind o) KStart
+                                  && match start_done r (o_manual o) s expected with Some true => true | _ => false end)
+                        (ss_reqs ss) in
+  let reqs := flat_map (fun o =>
+      if mine o then
+        match o_kind o with
+        | KStart => match start_done r (o_manual o) s expected with
+                    | Some _ => []
+                    | None => [if pstate_eqb s BACKOFF
+                               then mkOReq (o_kind o) (o_a o) (o_p o) (o_i o) (o_manual o) (o_op o) cnt (o_lost o) else o]
+                    end
+        | KStop => if is_stopped s then [] else [o]
+        end
+      else [o]) (ss_reqs ss) in
+  let ss1 := ss_with ss (ss_insts ss) (set_last (ss_last ss) a p i s) reqs in
+  if failed then spec_failure cf ss1 a p false else ss1.
+
+Definition listed_like (s : pstate) : bool :=
+  match s with STARTING | BACKOFF | RUNNING | STOPPING => true | _ => false end.
+
+Definition spec_op (cf : config) (ss : sspec) (o : op) : sspec :=
+  match o with
+  | OpEvent i a p s e _ => spec_event cf ss i a p s e
+  | OpTick i cnt _ =>
+      match aget i (ss_insts ss) with
+      | Some ins => ss_with ss (aset i (mkSInst (in_state ins) cnt) (ss_insts ss)) (ss_last ss) (ss_reqs ss)
+      | None => ss end
+  | OpTicks l _ =>
+      fold_left (fun ss ic => match aget (fst ic) (ss_insts ss) with
+                              | Some ins => ss_with ss (aset (fst ic) (mkSInst (in_state ins) (snd ic)) (ss_insts ss))
+                                                    (ss_last ss) (ss_reqs ss)
+                              | None => ss end) l ss
+  | OpCheck =>
+      (* requests whose result was reached outside the scope of the sequencer are dropped by the check *)
+      ss_with ss (ss_insts ss) (ss_last ss)
+        (filter (fun o => let s := last_state ss (o_a o) (o_p o) (o_i o) in
+                          match o_kind o with
+                          | KStop => negb (is_stopped s)
+                          | KStart => negb (pstate_eqb s RUNNING
+                                            && negb (pr_wait_exit (cf_rules cf (o_a o) (o_p o)) && negb (o_manual o)))
+                          end) (ss_reqs ss))
+  | OpCtxInvalidate ids =>
+      let insts := map (fun kv => if zmem (fst kv) ids
+                                  then (fst kv, mkSInst gen_SupvisorsInstanceStates_STOPPED (in_counter (snd kv)))
+                                  else kv) (ss_insts ss) in
+      let last := map (fun x => let '(a, p, i, s) := x in
+                                if zmem i ids && listed_like s then (a, p, i, FATAL) else x) (ss_last ss) in
+      let hit := filter (fun o => zmem (o_i o) ids && negb (o_lost o)) (ss_reqs ss) in
+      let reqs := map (fun o => if zmem (o_i o) ids
+                                then mkOReq (o_kind o) (o_a o) (o_p o) (o_i o) (o_manual o) (o_op o) (o_ref o) true
+                                else o) (ss_reqs ss) in
+      let ss1 := ss_lost_set (ss_with ss insts last reqs) (filter (fun i => zmem i ids) (akeys (ss_insts ss))) in
+      fold_left (fun ss o => match o_kind o with KStart => spec_failure cf ss (o_a o) (o_p o) false | KStop => ss end)
+                hit ss1
+  | OpCmdInvalidate =>
+      let lost := ss_lostids ss in
+      ss_with ss (ss_insts ss) (ss_last ss) (filter (fun o => negb (zmem (o_i o) lost)) (ss_reqs ss))
+  | OpInstState i code =>
+      match aget i (ss_insts ss) with
+      | Some ins => ss_with ss (aset i (mkSInst code (in_counter ins)) (ss_insts ss)) (ss_last ss) (ss_reqs ss)
+      | None => ss end
+  | OpCall c =>
+      match c with
+      | CStartApp _ a | CRestartApp _ a =>
+          ss_marks ss (ss_manual_start ss) (ss_manual_stop ss) (zadd a (ss_user_apps ss))
+                   (aset a (aget0 a (ss_plans ss) + 1) (ss_plans ss))
+      | CStartApps =>
+          ss_marks ss (ss_manual_start ss) (ss_manual_stop ss) (ss_user_apps ss)
+                   (fold_left (fun pl ac => aset (ac_name ac) (aget0 (ac_name ac) pl + 1) pl) (cf_apps cf) (ss_plans ss))
+      | CStartProc _ a p =>
+          ss_marks ss ((a, p) :: ss_manual_start ss) (ss_manual_stop ss) (zadd a (ss_user_apps ss)) (ss_plans ss)
+      | CRestartProc _ a p =>
+          ss_marks ss ((a, p) :: ss_manual_start ss) ((a, p) :: ss_manual_stop ss) (zadd a (ss_user_apps ss))
+                   (ss_plans ss)
+      | CStopProc a p _ => ss_marks ss (ss_manual_start ss) ((a, p) :: ss_manual_stop ss) (ss_user_apps ss) (ss_plans ss)
+      | CAbort k => ss_with ss (ss_insts ss) (ss_last ss) (filter (fun o => negb (kind_eqb (o_kind o) k)) (ss_reqs ss))
+      | _ => ss
+      end
+  end.
+
+(* one observed output, at operation index k *)
+Definition spec_out (cf : config) (k : Z) (ss : sspec) (o : out) : sspec :=
+  match o with
+  | OStart i a p =>
+      let manual := pair_mem a p (ss_manual_start ss) in
+      let r := cf_rules cf a p in
+      let cnt := match aget i (ss_insts ss) with Some ins => in_counter ins | None => 0 end in
+      let others := filter (fun o => kind_eqb (o_kind o) KStart && negb (o_manual o) && negb (o_lost o)) (ss_reqs ss) in
+      let ss1 :=
+        if manual then ss else
+        let ss_a := ss_check ss (forallb (fun o => negb (Z.eqb (o_a o) a)
+                                             || Z.eqb (pr_start (cf_rules cf a (o_p o))) (pr_start r)) others) V_start_order in
+        let ss_b := ss_check ss_a (forallb (fun o => Z.eqb (o_a o) a || negb (Z.ltb 0 (cf_app_start cf a))
+                                             || negb (Z.ltb 0 (cf_app_start cf (o_a o)))
+                                             || Z.eqb (cf_app_start cf (o_a o)) (cf_app_start cf a)) others) V_app_order in
+        let ss_c := ss_check ss_b (Z.ltb 0 (pr_start r)
+                                   && (Z.ltb 0 (cf_app_start cf a) || zmem a (ss_user_apps ss))) V_zero in
+        (* a request for an application whose run was aborted: legitimate only for a further plan *)
+        let ss_d := if zmem a (ss_flag ss_c)
+                    then ss_flags (ss_check ss_c (Z.ltb (aget0 a (ss_aborts ss_c)) (aget0 a (ss_plans ss_c))) V_strategy)
+                                  (ss_aborts ss_c) (zdiscard a (ss_flag ss_c)) (ss_flag_to ss_c) (ss_noresource ss_c)
+                    else ss_c in
+        if zmem a (ss_flag_to ss_d)
+        then ss_flags (ss_check ss_d (Z.ltb 1 (aget0 a (ss_plans ss_d))) V_strategy_timeout)
+                      (ss_aborts ss_d) (ss_flag ss_d) (zdiscard a (ss_flag_to ss_d)) (ss_noresource ss_d)
+        else ss_d in
+      ss_with ss1 (ss_insts ss1) (ss_last ss1) (ss_reqs ss1 ++ [mkOReq KStart a p i manual k cnt false])
+  | OStop i a p =>
+      let manual := pair_mem a p (ss_manual_stop ss) in
+      let r := cf_rules cf a p in
+      let cnt := match aget i (ss_insts ss) with Some ins => in_counter ins | None => 0 end in
+      let others := filter (fun o => kind_eqb (o_kind o) KStop && negb (o_manual o) && negb (o_lost o)) (ss_reqs ss) in
+      let ss0 := ss_check ss (listed_like (last_state ss a p i)) V_where_running in
+      let ss1 :=
+        if manual then ss0 else
+        let ss_a := ss_check ss0 (forallb (fun o => negb (Z.eqb (o_a o) a)
+                                              || Z.eqb (pr_stop (cf_rules cf a (o_p o))) (pr_stop r)) others) V_stop_order in
+        let ss_b := ss_check ss_a (forallb (fun o => Z.eqb (o_a o) a
+                                              || Z.eqb (cf_app_stop cf (o_a o)) (cf_app_stop cf a)) others) V_stop_app_order in
+        ss_check ss_b (forallb (fun o => negb (Z.eqb (o_a o) a) || Z.eqb (o_op o) k) others) V_together in
+      ss_with ss1 (ss_insts ss1) (ss_last ss1) (ss_reqs ss1 ++ [mkOReq KStop a p i manual k cnt false])
+  | OForced a p fs reason target =>
+      let k' := if pstate_eqb fs FATAL then KStart else KStop in
+      let reqs := filter (fun o => negb (kind_eqb (o_kind o) k' && Z.eqb (o_a o) a && Z.eqb (o_p o) p
+                                         && match target with Some i => Z.eqb (o_i o) i | None => false end))
+                         (ss_reqs ss) in
+      let ss1 := ss_with ss (ss_insts ss) (ss_last ss) reqs in
+      if Z.eqb reason (-1) then
+        let ss2 := spec_failure cf ss1 a p false in
+        ss_flags ss2 (ss_aborts ss2) (ss_flag ss2) (ss_flag_to ss2) true
+      else match k' with KStart => spec_failure cf ss1 a p true | KStop => ss1 end
+  | OPub _ _ _ _ => ss
+  end.
+
+(* C10: after a periodic check, no request may be older than its bound (in ticks of its target), the only
+   exception being a wait_exit program that is RUNNING *)
+Definition spec_wait (cf : config) (ss : sspec) (o : oreq) : Z :=
+  let nvalid := Z.of_nat (length (filter (fun kv => negb (Z.eqb (in_state (snd kv)) gen_SupvisorsInstanceStates_ISOLATED))
+                                         (ss_insts ss))) in
+  let secs := match cf_proc cf (o_a o) (o_p o) with
+              | Some pc => match o_kind o with KStart => pc_startsecs pc | KStop => pc_stopwaitsecs pc end
+              | None => 0 end in
+  ceil_ticks secs + Z.max gs_DEFAULT_TICK_TIMEOUT (nvalid / 10).
+
+Definition spec_bound_ok (cf : config) (ss : sspec) : bool :=
+  forallb (fun o =>
+    let cnt := match aget (o_i o) (ss_insts ss) with Some ins => in_counter ins | None => 0 end in
+    let exempt := kind_eqb (o_kind o) KStart && pr_wait_exit (cf_rules cf (o_a o) (o_p o)) && negb (o_manual o)
+                  && pstate_eqb (last_state ss (o_a o) (o_p o) (o_i o)) RUNNING in
+    exempt || Z.leb cnt (o_ref o + spec_wait cf ss o)) (ss_reqs ss).
+
+Definition spec_after (cf : config) (ss : sspec) (o : op) (starting stopping : bool) : sspec :=
+  let has k := existsb (fun o => kind_eqb (o_kind o) k) (ss_reqs ss) in
+  (* a request in flight is always reported in progress *)
+  let ss1 := ss_check ss ((negb (has KStart) || starting) && (negb (has KStop) || stopping)) V_progress in
+  match o with
+  | OpCheck =>
+      (* after the periodic check: nothing older than its bound, and progress is reported only for requests
+         in flight (between checks a job may wait for the next check to move on) *)
+      let ss2 := ss_check ss1 (spec_bound_ok cf ss1) V_bound in
+      ss_check ss2 ((negb starting || has KStart) && (negb stopping || has KStop)) V_progress
+  | _ => ss1
+  end.
+
+Fixpoint spec_walk (cf : config) (k : Z) (ss : sspec) (ops : list top) (observed : list obs) : sspec :=
+  match ops, observed with
+  | t :: r, OOk outs starting stopping _ _ _ :: robs =>
+      let o := fst (fst t) in
+      let ss1 := spec_op cf ss o in
+      let ss2 := fold_left (spec_out cf k) outs ss1 in
+      spec_walk cf (k + 1) (spec_after cf ss2 o starting stopping) r robs
+  | _, _ => ss    (* end of the history, or internal failure of the implementation (C16's matter) *)
+  end.
+
+Definition spec_init (cf : config) : sspec :=
+  mkSSpec (map (fun x => (fst (fst x), mkSInst (snd (fst x)) (snd x))) (cf_insts cf))
+          [] [] [] [] [] [] [] [] [] [] false [].
+
+Definition case_vios (c : case) : sspec :=
+  let '(cf, ops, observed) := c in spec_walk cf 0 (spec_init cf) ops observed.
+
+Definition has_vio (l : list vio) (ss : sspec) : bool :=
+  existsb (fun v => existsb (fun w => Z.eqb (vio_code v) (vio_code w)) l) (ss_vios ss).
+
+Definition c03_vios : list vio := [V_start_order; V_app_order; V_zero; V_strategy].
+Definition c09_vios : list vio := [V_stop_order; V_stop_app_order; V_together; V_where_running].
+Definition c10_vios : list vio := [V_bound; V_progress].
+
+(* class of the re-entrancy finding: a 'No resource available' failure occurred in the history *)
+Definition in_noresource_class (ss : sspec) : bool := ss_noresource ss.
+
+Definition spec_violations_of (vs : list vio) (cs : list case) : list nat :=
+  find_idx (fun c => let ss := case_vios c in negb (in_noresource_class ss) && has_vio vs ss) cs.
+Definition known_noresource_of (vs : list vio) (cs : list case) : list nat :=
+  find_idx (fun c => let ss := case_vios c in in_noresource_class ss && has_vio vs ss) cs.
+
+Definition spec_violations_c03 := spec_violations_of c03_vios.
+Definition spec_violations_c09 := spec_violations_of c09_vios.
+Definition spec_violations_c10 := spec_violations_of c10_vios.
+Definition known_noresource_c03 := known_noresource_of c03_vios.
+Definition known_noresource_c09 := known_noresource_of c09_vios.
+Definition known_noresource_c10 := known_noresource_of c10_vios.
+Definition known_timeout_strategy (cs : list case) : list nat :=
+  find_idx (fun c => has_vio [V_strategy_timeout] (case_vios c)) cs.
+
+(* diagnostic: the violation codes of one case *)
+Definition case_vio_codes (c : case) : list Z := map vio_code (ss_vios (case_vios c)).
+
+(* class of the second re-entrancy finding: the history ends with a KeyError raised by
+   `del self.current_jobs[application_name]` in Commander.next *)
+Definition ends_with_keyerror (c : case) : bool :=
+  match rev (snd c) with OCrash KeyError :: _ => true | _ => false end.
+Definition known_keyerror (cs : list case) : list nat := find_idx ends_with_keyerror cs.
+(* any other internal failure of the implementation is reported as a failing input *)
+Definition other_crashes (cs : list case) : list nat :=
+  find_idx (fun c => match rev (snd c) with
+                     | OCrash KeyError :: _ => false | OCrash _ :: _ => true | _ => false end) cs.
